@@ -59,7 +59,7 @@ func (cs *c06Case) UnmarshalJSON(b []byte) error {
 func init() {
 	engine.Register(&engine.Check{
 		ID: "C06", Level: "model_checking",
-		Rule:   "tree of ALL token sequences, complete to the stated depth in three tiers: (i) full alphabet (28 type keywords, EMPTY, '(' ')' ',', coordinate tokens of arity 1..5) to depth 9 (quick) / 10 (thorough); (ii) reduced alphabet {POINT,MULTIPOINT,MULTIPOLYGON,GEOMETRYCOLLECTION} x {base,Z,M,ZM} + EMPTY ( ) , + 8 coordinate tokens (two values per arity 2..4 so that unclosed rings and Z/M-only differences occur) to depth 11 / 13; (iii) tiny alphabet {GC, GC M, GC Z, POINT, POINT M, POINT Z, EMPTY ( ) , arity 2, 3} to depth 16 / 19; (iv) ring alphabet {POLYGON} x {base,Z,M,ZM} + EMPTY ( ) , + 11 coordinate tokens (arity 2..4, values differing in X/Y, in Z only, in M only, by one ulp in X and in Z) to depth 14 / 16 (rings of up to 5 / 6 positions in every layout). A prefix is extended unless the parse failed strictly before its last token (or at the last token and no continuation can re-lex it) - sound for an LALR(1) parser; every explored sequence is parsed by wkt.Unmarshal (no panic; error renders with a position inside the input; accepted => well-formed, one layout, lines >=2, rings closed >=4, re-encode round trip) and compared with the independent reference reader (same geometry when both accept; a text the reference accepts must be accepted; a text the reference rejects for a reason the property names - dimensionality, arity, line and ring rules - must be rejected). Plus a numeric-literal lattice (3 signs x 17 mantissas x 16 exponent forms in three positions), every tier-(iii) sequence of <=5 (thorough 6) tokens re-rendered with four whitespace styles (verdict must not change; errors on later lines / far into a line must render), every single-token deletion/substitution/transposition of every valid corpus text, every byte string of length <=4 (quick) / <=5 (thorough) over a 20-byte alphabet, and ~150000 strings made of two runs (lengths 0..64 around the renderer's 30-column window) of blanks, letters, UTF-8 continuation bytes, bytes the lexer treats as blanks, and 2-, 3- and 4-byte characters, on a first or second line, before five tails. states = explored sequences (viable prefixes + leaves) Also: digit strings of 1..25 digits, the int64/uint64 limits and their neighbours as numeric literals. Round 7: whitespace re-renderings with CRLF and a lone CR before far columns, long-run strings after a CRLF line. Round 10: every corpus text also unmutated; separators with blank lines before far columns.",
+		Rule:   "tree of ALL token sequences, complete to the stated depth in three tiers: (i) full alphabet (28 type keywords, EMPTY, '(' ')' ',', coordinate tokens of arity 1..5) to depth 9 (quick) / 10 (thorough); (ii) reduced alphabet {POINT,MULTIPOINT,MULTIPOLYGON,GEOMETRYCOLLECTION} x {base,Z,M,ZM} + EMPTY ( ) , + 8 coordinate tokens (two values per arity 2..4 so that unclosed rings and Z/M-only differences occur) to depth 11 / 13; (iii) tiny alphabet {GC, GC M, GC Z, POINT, POINT M, POINT Z, EMPTY ( ) , arity 2, 3} to depth 16 / 19; (iv) ring alphabet {POLYGON} x {base,Z,M,ZM} + EMPTY ( ) , + 11 coordinate tokens (arity 2..4, values differing in X/Y, in Z only, in M only, by one ulp in X and in Z) to depth 14 / 16 (rings of up to 5 / 6 positions in every layout). A prefix is extended unless the parse failed strictly before its last token (or at the last token and no continuation can re-lex it) - sound for an LALR(1) parser; every explored sequence is parsed by wkt.Unmarshal (no panic; error renders with a position inside the input; accepted => well-formed, one layout, lines >=2, rings closed >=4, re-encode round trip) and compared with the independent reference reader (same geometry when both accept; a text the reference accepts must be accepted; a text the reference rejects for a reason the property names - dimensionality, arity, line and ring rules - must be rejected). Plus a numeric-literal lattice (3 signs x 17 mantissas x 16 exponent forms in three positions), every tier-(iii) sequence of <=5 (thorough 6) tokens re-rendered with four whitespace styles (verdict must not change; errors on later lines / far into a line must render), every single-token deletion/substitution/transposition of every valid corpus text, every byte string of length <=4 (quick) / <=5 (thorough) over a 20-byte alphabet, and ~150000 strings made of two runs (lengths 0..64 around the renderer's 30-column window) of blanks, letters, UTF-8 continuation bytes, bytes the lexer treats as blanks, and 2-, 3- and 4-byte characters, on a first or second line, before five tails. states = explored sequences (viable prefixes + leaves) Also: digit strings of 1..25 digits, the int64/uint64 limits and their neighbours as numeric literals. Round 7: whitespace re-renderings with CRLF and a lone CR before far columns, long-run strings after a CRLF line. Round 10: every corpus text also unmutated; separators with blank lines before far columns. Round 12: every error rendered twice (same text).",
 		Run:    c06Run,
 		Replay: func(c *engine.Ctx, kind string, raw json.RawMessage) { c06Exec(c, decodeCase[c06Case](raw)) },
 		Assumptions: []string{
@@ -92,6 +92,13 @@ func c06Exec(c *engine.Ctx, cs c06Case) c06Outcome {
 		var msg string
 		if p, _ := engine.Guard(func() { msg = err.Error() }); p != nil {
 			fail("error-render-panic", fmt.Sprintf("Error() panicked: %v", p))
+			return out
+		}
+		// an error value is rendered as often as its holder likes (logged, wrapped, compared):
+		// the second rendering is the first one again
+		var msg2 string
+		if p, _ := engine.Guard(func() { msg2 = err.Error() }); p != nil || msg2 != msg {
+			fail("error-render-twice", fmt.Sprintf("Error() called a second time on the same error: panic=%v, message %q, the first time %q", p, clipStr(msg2, 300), clipStr(msg, 300)))
 			return out
 		}
 		var se *wkt.SyntaxError
